@@ -44,6 +44,9 @@ type PushParams struct {
 	Target  string       `json:"target"` // memory | oci | ocistorage | file-named | file-fallback | limited | proxy | readall | verifyreader
 	Pushers []PusherSpec `json:"pushers"`
 	Watch   int          `json:"watch,omitempty"` // watcher iterations (concurrent observation of blobs/)
+	// file-named target: every pusher writes under one file name, one after the other
+	// (a failed push followed by another push of the same name)
+	SameName bool `json:"same_name,omitempty"`
 }
 
 type pushProp struct{}
@@ -140,6 +143,20 @@ func (p *pushProp) Gen(r *Rand, tier string, idx int) any {
 	}
 	if n > 1 || r.Chance(0.3) {
 		pp.Watch = r.Range(5, 40)
+	}
+	if pp.Target == "file-named" && r.Chance(0.5) {
+		pp.SameName = true
+		if len(pp.Pushers) == 1 {
+			// a failing long push, then a valid shorter one
+			bad := PusherSpec{Content: "previous-longer-content-", Repeat: r.Range(2, 60), Desc: pick(r, []string{"wrong-digest", "ok"}), ForDigestOf: -1, Reader: ReaderSpec{FailAt: -1, Truncate: -1}}
+			if bad.Desc == "ok" {
+				bad.Reader.FailAt = len(bad.Content)*bad.Repeat - r.Range(1, 5)
+			}
+			pp.Pushers = append([]PusherSpec{bad}, pp.Pushers...)
+		}
+		for i := range pp.Pushers {
+			pp.Pushers[i].ForDigestOf = -1
+		}
 	}
 	return pp
 }
@@ -415,6 +432,9 @@ func (p *pushProp) run(rc *RunCtx, pp *PushParams, info *RunInfo) *Verdict {
 		descs[i] = descriptorFor(pp, i)
 		if pp.Target == "file-named" {
 			descs[i].Annotations = map[string]string{ocispec.AnnotationTitle: fmt.Sprintf("name%d.bin", i)}
+			if pp.SameName {
+				descs[i].Annotations = map[string]string{ocispec.AnnotationTitle: "shared.bin"}
+			}
 		}
 		judge[i] = judgePush(descs[i], &pp.Pushers[i])
 		ps := &pp.Pushers[i]
@@ -437,13 +457,13 @@ func (p *pushProp) run(rc *RunCtx, pp *PushParams, info *RunInfo) *Verdict {
 	simos.Reset(simos.Config{Budget: 100000})
 	defer simos.Disable()
 	var proxy *cas.Proxy
+	var seq []func()
 	res := simrt.Run(rc.NextConfig(), func() {
 		done := make(chan struct{}, len(pp.Pushers)+1)
 		for i := range pp.Pushers {
 			i := i
 			ps := &pp.Pushers[i]
-			simrt.Go(func() {
-				defer func() { done <- struct{}{} }()
+			body := func() {
 				rd := &faultyReader{data: append(ps.payloadTrunc(), bytes.Repeat([]byte("x"), ps.Reader.Extra)...), spec: ps.Reader}
 				switch pp.Target {
 				case "readall":
@@ -469,6 +489,26 @@ func (p *pushProp) run(rc *RunCtx, pp *PushParams, info *RunInfo) *Verdict {
 					errs[i] = err
 				default:
 					errs[i] = st.Push(ctx, descs[i], rd)
+				}
+			}
+			if pp.SameName {
+				seq = append(seq, body) // one after the other, in one task
+				continue
+			}
+			simrt.Go(func() {
+				defer func() { done <- struct{}{} }()
+				body()
+			})
+		}
+		if pp.SameName {
+			simrt.Go(func() {
+				defer func() {
+					for range pp.Pushers {
+						done <- struct{}{}
+					}
+				}()
+				for _, b := range seq {
+					b()
 				}
 			})
 		}
@@ -567,6 +607,9 @@ func (p *pushProp) run(rc *RunCtx, pp *PushParams, info *RunInfo) *Verdict {
 				if k != i && sameContent(descs[k], d) && (pp.Target != "file-named") {
 					other = true
 				}
+				if k != i && pp.SameName && errs[k] == nil && errors.Is(errs[i], file.ErrDuplicateName) {
+					other = true // the name was taken by an earlier successful push
+				}
 			}
 			if !other {
 				return violation("good-push-refused", "", "%s: exact matching content was refused: %v", what, errs[i])
@@ -582,6 +625,9 @@ func (p *pushProp) run(rc *RunCtx, pp *PushParams, info *RunInfo) *Verdict {
 			same := sameContent(descs[k], d)
 			if pp.Target == "file-named" {
 				same = k == i
+				if pp.SameName {
+					same = descs[k].Digest == d.Digest // one name: the store tells contents apart by digest only
+				}
 			}
 			if pp.Target != "memory" && pp.Target != "limited" && pp.Target != "file-fallback" && pp.Target != "file-named" && descs[k].Digest == d.Digest {
 				same = true // the OCI layout keys by digest
